@@ -83,7 +83,8 @@ Counted ==   \* silent steps that change the state
   \/ \E i \in 1..NDrv : (DStopGo(i) /\ task'[DT(i)].pc = "stop_wait") \/ DExpectGo(i)
   \/ \E t \in Tasks : task[t].todo # <<>> /\ Head(task[t].todo).kind = "exp" /\ OwnerNext(t)
   \/ \E t \in Tasks : (ProcSelect(t) /\ task'[t].pc = "pb") \/ (OwnerNext(t) /\ task'[t].pc = "waith") \/ OwnerResume(t) \/ OwnerEpilogue(t) \/ OwnerAbort(t) \/ FwdReturn(t) \/ SyncReturn(t) \/ ParStart(t) \/ TimeoutFire(t) \/ WalBegin(t) \/ WalOpen(t, FALSE) \/ WalClose(t)
-  \/ \E k \in 1..MaxAct : XStart(k) \/ XEnd(k)
+  \/ \E k \in 1..MaxAct : XStart(k) \/ XEnd(k) \/ XAbandon(k)
+  \/ \E t \in Tasks : PCancelWake(t)
   \/ \E a \in 1..MaxAct : HSuspend(a, "yield") \/ HSuspend(a, "sleep")
   \/ \E i \in 1..NDrv : DIdleStart(i) \/ DIdleJoin(i) \/ DIdleFlag(i) \/ (DIdleRecheck(i) /\ task'[DT(i)].pc # "run")
 Spins == \E a \in 1..MaxAct : InlineSpin(a) \/ SpinWake(a)     \* 1000 zero-sleeps revisit the same two states
